@@ -163,7 +163,11 @@ SEARCH_FIELDS = {
     "LBFGS": [],
     "Drawer": [("total_draws", "int")],
 }
-VARNAMES = ["xx", "yy", "aa", "bb", "pp", "qq", "left", "right", "prior", "other", "lens", "mass_0"]
+# variable names of arithmetic operands.  `left` / `right` are properties of CompoundPrior: a left operand held in a
+# variable called `right` (or a right operand called `left`) is routed through the property setter and silently
+# replaces the other operand -- a defect of arithmetic priors outside C07; only the harmless combination
+# (left operand `left`, right operand `right`) is exercised, in a dedicated case.
+VARNAMES = ["xx", "yy", "aa", "bb", "pp", "qq", "prior", "other", "lens", "mass_0", "source_1"]
 
 
 def unhex(s):
@@ -947,6 +951,12 @@ def special_pairs(rng, gen):
     b = {"search": srch, "pool": pool, "tag": None,
          "model": {"t": "coll", "form": "dict", "items": [["group", {"t": "coll", "form": "dict", "items": [["m1", m1], ["m2", m2]]}]]}}
     out.append({"kind": "pair", "how": "regroup", "expect": "differ", "a": a, "b": b, "labels": ["regroup"]})
+    # operands held in variables called left / right (names that CompoundPrior rewrites to left_ / right_)
+    gen.pool = []
+    lr = {"t": "model", "cls": "A2", "extras": [],
+          "attrs": [["a", {"t": "binop", "op": rng.choice(["+", "*", "/"]), "l": gen.prior(), "r": gen.prior(), "lv": "left", "rv": "right"}],
+                    ["b", {"t": "unop", "op": "neg", "a": gen.prior(), "av": "prior"}]]}
+    out.append({"kind": "fit", "spec": {"search": gen.search(), "pool": gen.pool, "tag": "lr", "model": lr}})
     gen.pool = []
     base = {"t": "model", "cls": "A1", "attrs": [["u", gen.prior()]], "extras": [["note", {"t": "str", "v": "p.q"}]]}
     other = _copy.deepcopy(base)
